@@ -219,8 +219,12 @@ let trace_main () =
   let bin = Sys.argv.(2) in
   let max_steps = int_of_string Sys.argv.(3) in
   let file = read_file bin in
-  let words = image_words file in
-  let tab = SL.map (fun (n, o) -> (coq_of_ostring n, zi o)) (parse_symtab file) in
+  (* image words and symbol table as the MODEL of Processor::load() reads them (Loader.load_file, extracted) *)
+  let fbytes = SL.init (Stdlib.String.length file) (fun i -> zi (Char.code (Stdlib.String.get file i))) in
+  let (words_z, tab) = match Loader.load_file fbytes with
+    | Some (ws, t) -> (ws, SL.map (fun (nm, o) -> (coq_of_ostring (Stdlib.String.concat "" (SL.map (fun b -> Stdlib.String.make 1 (Char.chr (iz b))) nm)), o)) t)
+    | None -> (SL.map zi (image_words file), SL.map (fun (n, o) -> (coq_of_ostring n, zi o)) (parse_symtab file)) in
+  let words = SL.map iz words_z in
   let cons = let b = Buffer.create 64 in (try while true do Buffer.add_channel b stdin 1 done with End_of_file -> ()); Buffer.contents b in
   let inp = ref { Isa.console = SL.init (Stdlib.String.length cons) (fun i -> zi (Char.code (Stdlib.String.get cons i))); Isa.files = (fun _ -> []) } in
   let st = ref (Isa.boot (SL.map zi words)) in
